@@ -280,6 +280,24 @@ func (r *Run) Extra(name string, v any) {
 	r.mu.Unlock()
 }
 
+// NoteOnce keeps the first text seen under a name in the evidence's coverage block ("notes"): used for
+// observations that are not verdicts on this property (e.g. a race report outside the anchored code).
+func (r *Run) NoteOnce(name, text string) {
+	if len(text) > 4000 {
+		text = text[:4000] + "…"
+	}
+	r.mu.Lock()
+	defer r.mu.Unlock()
+	notes, _ := r.extra["notes"].(map[string]string)
+	if notes == nil {
+		notes = map[string]string{}
+		r.extra["notes"] = notes
+	}
+	if _, ok := notes[name]; !ok && len(notes) < 20 {
+		notes[name] = text
+	}
+}
+
 // Inconclusive records that some part of the run could not decide (checker timeout, hook not reached...).
 func (r *Run) Inconclusive(reason string) {
 	r.mu.Lock()
